@@ -1,6 +1,6 @@
 #!/bin/bash
 # Developer tool: confirm a seeded change independently and file it under /verif/seeded/<name>/.
-# usage: confirm_seed.sh <dir with patch.diff + zz_seed_*_test.go + notes.md> <name e.g. C08-a> <property>
+# usage: confirm_seed.sh <dir with patch.diff + zz_seed*_test.go + notes.md> <name e.g. C08-a> <property>
 # Confirms in a scratch worktree of /repo (outside /repo and /verif): demo passes clean; with the patch the tree
 # builds, vets, the demo FAILS, and the unedited existing suite passes. Removes the worktree afterwards.
 set -uo pipefail
@@ -13,7 +13,7 @@ git -C /repo worktree remove --force "$wt" 2>/dev/null; rm -rf "$wt"
 git -C /repo worktree add -q --detach "$wt" HEAD || exit 2
 cleanup() { git -C /repo worktree remove --force "$wt" 2>/dev/null; rm -rf "$wt"; }
 trap cleanup EXIT
-demo=$(ls "$src"/zz_seed_*_test.go 2>/dev/null | head -1)
+demo=$(ls "$src"/zz_seed*_test.go 2>/dev/null | head -1)
 [ -f "$src/patch.diff" ] && [ -n "$demo" ] || { echo "RESULT $name: missing patch or demo"; exit 2; }
 pkgdir=$(grep -m1 -o 'PKGDIR:.*' "$src/notes.md" 2>/dev/null | cut -d: -f2 | tr -d ' ')
 # find the package dir: package clause of the demo must match a dir touched by or named in notes; try candidates
